@@ -23,7 +23,8 @@ theorem translation_complete :
 /-- so was every function the harness drives (guards against a silently shrinking target list) -/
 theorem translation_targets :
     Generated.FeeArith.status.map (·.1) =
-      ["MinSDKInt", "QuoIntRoundUp", "applyLooselyTo", "ApplyTo", "ApplyToLoosely", "SplitCoinByBips"] := by
+      ["MinSDKInt", "QuoIntRoundUp", "applyLooselyTo", "ApplyTo", "ApplyToLoosely", "SplitCoinByBips",
+        "CalculateExchangeSplit.body"] := by
   decide
 
 theorem fits256_of_abs_le {x y : Int} (hy : fits256 y = true) (h : x.natAbs ≤ y.natAbs) :
@@ -194,6 +195,61 @@ theorem gen_SplitCoinByBips (coin : GoCoin) (bips : Nat)
         GoInt.sub, GoInt.add, GoInt.newCoin, mul256, add256, bind, Except.bind, pure, Except.pure,
         Except.map]
 
+theorem mul256_ok {a b r : Int} (h : mul256 a b = .ok r) : r = a * b ∧ fits256 r = true := by
+  unfold mul256 at h
+  by_cases hf : fits256 (a * b) = true
+  · simp [hf] at h; subst h; exact ⟨rfl, hf⟩
+  · simp [hf] at h
+
+theorem add256_ok {a b r : Int} (h : add256 a b = .ok r) : r = a + b ∧ fits256 r = true := by
+  unfold add256 at h
+  by_cases hf : fits256 (a + b) = true
+  · simp [hf] at h; subst h; exact ⟨rfl, hf⟩
+  · simp [hf] at h
+
+/-- the translated body of `CalculateExchangeSplit`'s loop (one fee coin, with the denom's split
+as looked up by the keeper) is the model's `exchangeSplitCoin`, the result being a coin of the same
+denomination; `sdk.NewCoin` cannot panic because the share of a non-negative amount is non-negative -/
+theorem gen_exchangeSplit_body (coin : GoCoin) (split : Nat) (h0 : 0 ≤ coin.amount) :
+    Generated.FeeArith.«CalculateExchangeSplit.body» coin split =
+      (Fees.exchangeSplitCoin coin.amount split).map (Option.map fun x => ⟨coin.denom, x⟩) := by
+  unfold Generated.FeeArith.«CalculateExchangeSplit.body» Fees.exchangeSplitCoin GoInt.isZero
+    GoInt.quoRemInt GoInt.mul GoInt.add GoInt.newCoin
+  by_cases ha : coin.amount = 0
+  · simp [ha, pure, Except.pure, Except.map]
+  · by_cases hs : split = 0
+    · simp [ha, hs, pure, Except.pure, Except.map]
+    · have hs' : ¬ ((split : Int) = 0) := by omega
+      obtain ⟨e1, e2⟩ := tdiv_tmod_nonneg h0 (by decide : (0 : Int) < 10000)
+      obtain ⟨f1, f2, f3⟩ := ediv_facts coin.amount (by decide : (0 : Int) < 10000)
+      have hq : 0 ≤ coin.amount / 10000 := Int.ediv_nonneg h0 (by decide)
+      have hsn : (0 : Int) ≤ split := Int.natCast_nonneg _
+      simp only [ha, hs, hs', decide_false, decide_true, if_false, Bool.false_eq_true, bind, Except.bind,
+        pure, Except.pure, show ¬ ((10000 : Int) = 0) by decide]
+      cases hm1 : mul256 (coin.amount.tdiv 10000) (split : Int) with
+      | error e => simp [Except.map]
+      | ok a =>
+        simp only []
+        cases hm2 : mul256 (coin.amount.tmod 10000) (split : Int) with
+        | error e => simp [Except.map]
+        | ok b =>
+          simp only []
+          have hbfit : fits256 b = true := (mul256_ok hm2).2
+          have hbv : b = coin.amount.tmod 10000 * (split : Int) := (mul256_ok hm2).1
+          have hav : a = coin.amount.tdiv 10000 * (split : Int) := (mul256_ok hm1).1
+          rw [gen_QuoIntRoundUp b 10000 (by decide) hbfit]
+          simp only []
+          cases hadd : add256 a (quoIntRoundUp b 10000) with
+          | error e => simp [Except.map]
+          | ok r =>
+            have hr : r = a + quoIntRoundUp b 10000 := (add256_ok hadd).1
+            have hb0 : 0 ≤ b := by rw [hbv, e2]; exact Int.mul_nonneg f2 hsn
+            have hc0 : 0 ≤ quoIntRoundUp b 10000 :=
+              isCeilDiv_nonneg (by decide) hb0 (quoIntRoundUp_isCeil hb0 (by decide))
+            have ha0 : 0 ≤ a := by rw [hav, e1]; exact Int.mul_nonneg hq hsn
+            have hneg : ¬ (r < 0) := by omega
+            simp [hneg, Except.map]
+
 /-! ### The property clauses, restated on the translated code -/
 
 /-- [on the code] `QuoIntRoundUp` rounds away from zero for every sign combination. -/
@@ -263,5 +319,21 @@ example : Generated.FeeArith.SplitCoinByBips ⟨"nhash", 2 ^ 64 + 7⟩ 2500 =
 
 example : Generated.FeeArith.ApplyToLoosely ⟨⟨"usd", 1000⟩, ⟨"nhash", 25⟩⟩ ⟨"usd", 1200⟩ =
     .ok ⟨"nhash", 30⟩ := by decide
+
+/-- [on the code] the exchange's share of one fee coin, as `CalculateExchangeSplit` computes it:
+for a valid coin and a split of at most 10000 bips it never fails and is exactly
+`⌈amount·split/10000⌉` in the coin's denomination, between 0 and the amount (skipped for a zero
+amount or a zero split). -/
+theorem code_exchangeSplit_is_ceil (coin : GoCoin) (split : Nat) (h0 : 0 < coin.amount)
+    (hs0 : 0 < split) (hs : split ≤ 10000) (hf : fits256 coin.amount = true) :
+    ∃ x, Generated.FeeArith.«CalculateExchangeSplit.body» coin split = .ok (some ⟨coin.denom, x⟩) ∧
+      IsCeilDiv (coin.amount * split) 10000 x ∧ 0 ≤ x ∧ x ≤ coin.amount := by
+  obtain ⟨x, hx, hc, h1, h2⟩ := exchangeSplit_is_ceil h0 hs0 hs hf
+  refine ⟨x, ?_, hc, h1, h2⟩
+  rw [gen_exchangeSplit_body coin split (by omega), hx]; rfl
+
+example : Generated.FeeArith.«CalculateExchangeSplit.body» ⟨"nhash", 2 ^ 256 - 2⟩ 8047 =
+    .ok (some ⟨"nhash", 93177894209268342457347571636491159449526356660440961882551517851167695421255⟩) := by
+  decide
 
 end PvProofs.C19Gen
